@@ -95,6 +95,15 @@ def gen_cases(rng, tier):
         long_ = n > 8192
         yield {'op': 'findall' if long_ else rng.choice(['find', 'rfind', 'findall', 'findall', 'contains']), 'cls': rng.choice(CLASSES), 'data': data, 'pat': pat, 'start': a, 'end': b,
                'ba': False if long_ else rng.choice([None, False, True]), 'opt_ba': False, 'ptype': 'bits', 'count': None if long_ else rng.choice([None, None, 1, 2, 5]), 'lsb0': True}
+    # empty patterns and invalid windows with every count (0 included): ValueError, whatever else is asked for
+    for _ in range(40 if tier == 'quick' else 400):
+        n = rng.choice([0, 1, 8, 9, 16]); data = rand_bits(rng, n)
+        op = rng.choice(['find', 'rfind', 'findall', 'split', 'replace', 'replace', 'contains'])
+        bad_window = rng.random() < 0.5
+        a, b = (rng.choice([n + 1, -n - 1, 5]), rng.choice([None, 2, -n - 2])) if bad_window else rand_window(rng, n)
+        if op == 'contains': a = b = None
+        yield {'op': op, 'cls': rng.choice(MUTABLE if op == 'replace' else CLASSES), 'data': data, 'pat': '' if (not bad_window or rng.random() < 0.3) else rand_bits(rng, 2), 'start': a, 'end': b,
+               'ba': rng.choice([None, False, True]), 'opt_ba': False, 'ptype': 'bits', 'count': rng.choice([0, 0, None, 1]), 'new': rand_bits(rng, 2)}
     # histories on ONE mutable object: searches of every kind interleaved with in-place changes; every search is judged on the content the object has then
     for i in range(60 if tier == 'quick' else 1000):
         n = 8 * rng.choice([2, 3, 4, 6, 8, 12])
